@@ -511,7 +511,8 @@ func GetAttrTypeString(t int, nullable bool) string {
 	case AttrTypeBytes:
 		str = "bytes"
 	default:
-		str = ""
+		// An invalid type has no name, nullable or not.
+		return ""
 	}
 
 	if nullable {
